@@ -148,6 +148,7 @@ type fieldDiff struct {
 	SIndex int
 	Want   string
 	Got    string
+	Shape  string // how the field travelled: kind/definition class/byte order, or "absent"
 }
 
 func (d fieldDiff) String() string {
@@ -296,7 +297,7 @@ func compareFile(f *fit.File, ft byte, msgs []ModelMsg, co compareOpts, st *Stat
 				}
 				g := canonValue(gv.Field(pf.SIndex))
 				if !canonEqual(w, g) {
-					diffs = append(diffs, fieldDiff{Slot: key, Index: i, Global: m.Global, Field: pf.Name, SIndex: pf.SIndex, Want: w, Got: g})
+					diffs = append(diffs, fieldDiff{Slot: key, Index: i, Global: m.Global, Field: pf.Name, SIndex: pf.SIndex, Want: w, Got: g, Shape: fieldShape(m, em, pf)})
 					if len(diffs) > 50 {
 						return diffs
 					}
@@ -305,4 +306,49 @@ func compareFile(f *fit.File, ft byte, msgs []ModelMsg, co compareOpts, st *Stat
 		}
 	}
 	return diffs
+}
+
+// fieldShape abstracts how a field reached the message, for violation classes.
+func fieldShape(m *ModelMsg, em *expMsg, pf *PField) string {
+	kind := "scalar"
+	pb := baseOf(pf.Base)
+	switch {
+	case pf.Kind == kindUTC || pf.Kind == kindLocal:
+		kind = "time"
+	case pf.Kind == kindLat || pf.Kind == kindLng:
+		kind = "coord"
+	case pb.String && pf.Array:
+		kind = "stringarray"
+	case pb.String:
+		kind = "string"
+	case pf.Array:
+		kind = "array"
+	}
+	if em.comp[pf.SIndex] {
+		return kind + "/component-destination"
+	}
+	fd, onWire := m.FD[pf.SIndex]
+	if !onWire {
+		if _, set := em.fields[pf.SIndex]; set {
+			return kind + "/set-by-rule"
+		}
+		return kind + "/absent"
+	}
+	db := baseOf(byte(fd[2]))
+	dc := "full"
+	switch {
+	case db == nil:
+		dc = "unknown-type"
+	case !pb.String && !pf.Array && db.Size < pb.Size && db.Signed:
+		dc = "narrow-signed"
+	case !pb.String && !pf.Array && db.Size < pb.Size:
+		dc = "narrow-unsigned"
+	case byte(fd[2]) != pf.Base:
+		dc = "sibling"
+	}
+	order := "le"
+	if m.BE {
+		order = "be"
+	}
+	return kind + "/" + dc + "/" + order
 }
